@@ -18,3 +18,39 @@ func verifGate(point string, op *optracker.Operation) {
 		f(point, op)
 	}
 }
+
+// Trace hooks (build tag "verif"): the steps of the tracker on an operation
+// are reported on the event trace of its operation tracker (see
+// optracker/verif_on.go; off unless an observer is installed there).
+//
+//   Tracker    a tracker was created (first event of its trace): workers, queue size
+//   Enqueue    the operation was put on its channel (send and event are one
+//              step of the event order: the event mutex is held over the
+//              non-blocking select) / QueueFull: the channel was full
+//   Dequeue    a worker received the operation
+//   Skip       the worker saw it cancelled before starting / Abandon: after the
+//              call returned an error
+//   CallStart  the IPFS call is issued / CallReturn: it returned (ok or not)
+//   Shutdown   the tracker's context is cancelled (cancel and event are one step)
+
+func verifTracker(spt *Tracker) {
+	optracker.VerifOptEvent(spt.optracker, "Tracker", "K", spt.config.ConcurrentPins, "Q", spt.config.MaxPinQueueSize)
+}
+
+func verifOp(op *optracker.Operation, ev string) {
+	optracker.VerifOpEvent(op, ev)
+}
+
+func verifRet(op *optracker.Operation, err error) {
+	optracker.VerifOpEvent(op, "CallReturn", "ok", err == nil)
+}
+
+func verifQBegin() bool { return optracker.VerifBegin() }
+
+func verifQEnd(locked bool, op *optracker.Operation, ev string, n int) {
+	optracker.VerifEnd(locked, op, ev, "len", n)
+}
+
+func verifShutdown(spt *Tracker) {
+	optracker.VerifAtomic(spt.optracker, spt.cancel, "Shutdown")
+}
